@@ -24,14 +24,16 @@ from harness.c10 import cfg_op, enc_rec, fclose, float_mag, gen_pairs, gen_srr, 
 
 NAMES = ["A", "B", "C"]
 FLAT_REL = 1e-12
-CFG_MAXDEN = 30  # config-only stream: denominators 1..30 (no reconstruction, so the lcm^2 growth does not matter)
+CFG_MAXDEN = 60  # config-only stream: denominators 1..60 (no reconstruction, so the lcm^2 growth does not matter)
 CFG_BATCH = 250  # offset lists per enumerated config-only case
 
 
-DTYPES = {"f8": "<f8", "f4": "<f4", "i8": "<i8", "i4": "<i4", "u2": "<u2"}  # sample dtypes of a stack (case key -> dtype.str)
+# sample dtypes of a stack (case key -> dtype.str); capital keys: big-endian
+DTYPES = {"f8": "<f8", "f4": "<f4", "i8": "<i8", "i4": "<i4", "u2": "<u2", "F8": ">f8", "F4": ">f4", "I4": ">i4"}
 # bound on |token| for which token * scale (scale 1, 1/2, 1/4) is held exactly by a field of that dtype, with room for the exact
 # sum of up to 16 layers (np.mean of float32 layers adds in float32)
-DTYPE_LIMIT = {"<f8": 2**48, "<f4": 2**19, "<i8": 2**58, "<i4": 2**27, "<u2": 2**12}
+DTYPE_LIMIT = {"<f8": 2**48, "<f4": 2**19, "<i8": 2**58, "<i4": 2**27, "<u2": 2**12, ">f8": 2**48, ">f4": 2**19, ">i4": 2**27}
+LAYOUTS = ("F", "strided", "T")
 MAX_LAYERS = 16
 FLAT_REL32 = 2.0**-22  # np.mean of float32 layers is a float32
 SCALES = (1, 0.5, 0.25)
@@ -139,6 +141,21 @@ def make_layer(fields, rows, cols, data, fscale):
     return a
 
 
+def relayout(a, how):
+    """the same layer in another memory layout: Fortran order, a strided window of a larger array, the transpose of a
+    C-ordered transposed copy (all writeable views / arrays with the same dtype and values)"""
+    if how == "F":
+        return np.asfortranarray(a)
+    if how == "strided":
+        big = np.zeros((2 * a.shape[0] + 1, a.shape[1] + 3), dtype=a.dtype)
+        view = big[1::2, 2:2 + a.shape[1]]
+        view[...] = a
+        return view
+    if how == "T":
+        return np.ascontiguousarray(a.T).T
+    return a
+
+
 def payload_ok(fields, enc_layers, fscale):
     """every token * scale is held exactly by its field's dtype (and small enough for exact sums over the layers)"""
     for k, (_, dt) in enumerate(fields):
@@ -172,9 +189,87 @@ def flat_close(vals, rats, rel=FLAT_REL):
         if len(rv) != len(rr):
             return False
         for v, q in zip(rv, rr):
-            if not fclose(float(v), unrat(q), rel):
+            # fast path in floating point (int / int is correctly rounded, so qf is within 2^-53 of q: negligible beside rel);
+            # only a difference within a factor 4 of the tolerance is decided exactly
+            a = float(v)
+            if not math.isfinite(a):
+                return False
+            if isinstance(q, list):
+                qn, qd = int(q[0]), int(q[1])
+                qf = qn / qd
+            else:
+                qf = float(int(q))
+            d, m = abs(a - qf), max(abs(a), abs(qf))
+            if d <= 0.25 * rel * m:
+                continue
+            if d > 4.0 * rel * m or not fclose(a, unrat(q), rel):
                 return False
     return True
+
+
+def cal_ok(cal, nfields):
+    """a `cal` entry of a case: one [intercept, gradient] pair (or None = the default Calibration()) per initial field, finite
+    floats, gradient not zero"""
+    if cal is None:
+        return True
+    if not isinstance(cal, list) or len(cal) != nfields:
+        return False
+    for q in cal:
+        if q is None:
+            continue
+        if not (isinstance(q, list) and len(q) == 2 and all(isinstance(v, (int, float)) and not isinstance(v, bool) and math.isfinite(v) for v in q)):
+            return False
+        if q[1] == 0 or abs(q[0]) > 2.0**40 or not (2.0**-20 <= abs(q[1]) <= 2.0**20):
+            return False
+    return True
+
+
+def probe_ok(q):
+    """a configuration handed to check_config_valid: the five constructor arguments, finite positive raster parameters"""
+    try:
+        return (isinstance(q, dict) and all(isinstance(q[k], (int, float)) and not isinstance(q[k], bool) and math.isfinite(q[k])
+                                             for k in ("spotsize", "speed", "scantime", "warmup"))
+                and q["spotsize"] > 0 and q["speed"] > 0 and q["scantime"] > 0 and abs(q["warmup"] / q["scantime"]) < 2**40
+                and pairs_ok(q["pairs"]))
+    except Exception:
+        return False
+
+
+def read_ok(rd):
+    return (isinstance(rd, dict) and (rd.get("element") is None or (isinstance(rd["element"], int) and not isinstance(rd["element"], bool)))
+            and (rd.get("layer") is None or (isinstance(rd["layer"], int) and not isinstance(rd["layer"], bool)))
+            and isinstance(rd.get("calibrate", False), bool) and isinstance(rd.get("flat", False), bool))
+
+
+def read_values(arr, names):
+    """the array a read returned as nested lists of floats, one list per pixel (1 value for an unstructured array)"""
+    if arr.dtype.names is None:
+        return np.asarray(arr, dtype=np.float64)[..., None]
+    if list(arr.dtype.names) != list(names):
+        return None
+    return np.stack([np.asarray(arr[nm], dtype=np.float64) for nm in names], axis=-1)
+
+
+def model_values(j):
+    """a driver image / stack of exact rationals as a float64 array (each rational correctly rounded)"""
+    def conv(x, depth):
+        if depth == 0:
+            return [int(q[0]) / int(q[1]) for q in x]
+        return [conv(y, depth - 1) for y in x]
+    return np.array(conv(j["data"], len(j["shape"])), dtype=np.float64).reshape(tuple(j["shape"]) + (-1,))
+
+
+def stack_shapes9(case):
+    """the layer shapes of a case: layer i is shaped like layer i mod 2, plus `extra[i]` more samples (same-parity layers of
+    different lengths; absent = a crossed stack)"""
+    ex = case.get("extra") or [0] * case["n"]
+    return [[case["shapes"][i % 2][0], case["shapes"][i % 2][1] + ex[i]] for i in range(case["n"])]
+
+
+def extra_ok(case):
+    ex = case.get("extra")
+    return ex is None or (isinstance(ex, list) and len(ex) == case["n"]
+                          and all(isinstance(v, int) and not isinstance(v, bool) and 0 <= v <= 64 for v in ex))
 
 
 class StepRaised(Exception):
@@ -191,7 +286,7 @@ def real(fn, *a, **kw):
 class C09(Prop):
     id = "C09"
     anchored = ["src/pewlib/srr/srr.py", "src/pewlib/srr/config.py", "src/pewlib/process/calc.py"]
-    cases = {"quick": 380, "thorough": 13000}
+    cases = {"quick": 330, "thorough": 12000}
     rule = ("crossed stacks of 2..5 layers (layer i has the shape of layer i mod 2), 1..6 lines, samples = warm-up + needed + excess "
             "0..7 (or 1-2 short / negative warm-up: the validity check must then not accept something that cannot be reconstructed), "
             "magnification 1..4 realised by (spotsize, speed, scantime) triples incl. binary-inexact values whose float quotient is the "
@@ -226,7 +321,19 @@ class C09(Prop):
             "stack squeezed through float32 / int32 would change) or negative. Sizes beyond the usual (feature layers>5 / lines>6, ~3 %): "
             "6..16 layers of 1-3 lines, 7..24 lines in one layer kind. The object is made by SRRLaser(...), by SRRLaser.from_list (float64 "
             "stacks, feature ctor:from_list, ~8 %) or by SRRLaser.from_lasers followed by the assignment of the config (ctor:from_lasers, "
-            "~8 %). Besides get(layer=i) and get(layer=i, flat=True), get(element, layer=i) is read for every layer")
+            "~8 %). Besides get(layer=i) and get(layer=i, flat=True), get(element, layer=i) is read for every layer; get(name) and "
+            "get(name, flat=True) for EVERY element. Calls of get BEFORE the observations of a state (features cread:*, creads:first / "
+            "creads:mid; 30 % of the fresh reconstructions, half of the histories + 12 fixed cases): 1-3 calls with calibrate=True (85 %) "
+            "or not, one element or all, a layer or the reconstruction, flat or not, on an object whose elements carry NON-identity "
+            "calibrations (calibration:non-identity; given to the constructor / the first Laser of from_lasers / put into the public dict; "
+            "reassigned by history step `cal`); afterwards every plain observation must still be the geometric model of the ORIGINAL "
+            "layers and laser.data must hold them (the in-place calibration loop of get writes into whatever its local `data` refers to). "
+            "Arrays returned by layer reads and by those calls are among the arrays the `scribble` step overwrites. "
+            "check_config_valid(config) with 1-3 configurations OTHER than the object's own (probe-config:*, 40 %): more / negative warm-up, "
+            "the largest warm-up that fits and one sample more, another magnification, other offsets. Same-parity layers of different "
+            "lengths (feature ragged, ~8 %: every layer from the third on 0-5 samples longer or shorter than the first of its kind, all "
+            "long enough). Memory layouts of the layers (layout:F / strided / T, ~20 %), one dtype per field and big-endian fields "
+            "(dtype:mixed-fields, dtype:big-endian). ONE raster attribute of the config assigned (history:config-one-attribute:*)")
     trusted = [
         "'integer magnification' means spotsize/(speed*scantime) evaluates to an integer in float64 (DESIGN 6a); the driver computes "
         "that float64 value itself from the three inputs (PewModel/Srr.lean `fl`: round to nearest, ties to even, normal range) and the "
@@ -277,6 +384,19 @@ class C09(Prop):
         "lcm * numerator does not fit 2^60 are counted as hypothesis-excluded, never compared",
         "a change of the array LAYOUT (field names, order, shape) that keeps from_array(to_array(c)) = c is reported as an "
         "implementation-vs-model difference (the model's arrays are the ones NumPy builds now), not as a violation of the specification",
+        "no clause of the property says what get(calibrate=True) returns: the values of a calibrated read are compared with the model "
+        "(PewModel/Srr.lean Laser.get / getSpec, exact (x - intercept) / gradient; 1e-12 of the magnitudes involved, 2^-20 for float32 "
+        "fields; integer fields written back into their own dtype not compared) and a difference is RECORDED as a feature ('calibrated "
+        "read: values differ from the model (recorded only)'), never a verdict (notes/SECTION13.md 13.2). What is demanded after any "
+        "calls of get is what the property says of every read: layers unmodified, voxels and flat image the geometric model of the "
+        "stored layers (theorems reads_do_not_change_store, reconstruction_after_reads). Plain (calibrate=False) calls among `creads` are "
+        "compared exactly like the standing observations",
+        "the byte order of the dtype of a reconstruction is not compared (field names, kinds and sizes are)",
+        "same-parity layers of different lengths: every layer is at least as long as needed whenever the first two are (theorem "
+        "krisskross_voxel_ragged); a stack whose first two layers are long enough and a later one is not (accepted by the validity "
+        "check, which reads layers 0 and 1, DESIGN 9.5) is hypothesis-excluded",
+        "configurations handed to check_config_valid (`probes`) with a near-integer magnification are skipped; with a warm-up decided by "
+        "float rounding only the model is compared",
     ]
 
     def generate(self, rng, tier):
@@ -310,12 +430,76 @@ class C09(Prop):
         case["element"] = rng.randrange(case["nel"])
         self.gen_payload(rng, case, plain=0.75)
         self.gen_ctor(rng, case)
+        if rng.random() < 0.3:
+            self.gen_cal(rng, case)
+        self.gen_extra(rng, case, 0.25)
+        if rng.random() < 0.4:
+            self.gen_probes(rng, case)
         return case
+
+    def gen_extra(self, rng, case, p):
+        """same-parity layers of different lengths: every layer from the third on may have more samples than the layer kind's
+        first one (never fewer: every layer holds what is read from it when the first two do)"""
+        if case["n"] >= 3 and rng.random() < p:
+            ex = [0, 0] + [rng.choice([0, 1, 2, 5]) for _ in range(case["n"] - 2)]
+            if not any(ex):
+                ex[rng.randrange(2, case["n"])] = rng.choice([1, 3])
+            if rng.random() < 0.3:  # the first layers the longest
+                ex = [max(ex) - v for v in ex]
+                if not any(ex[2:]) and ex[0] == ex[1] == 0:
+                    ex[2] = 1
+            case["extra"] = ex
+
+    def gen_probes(self, rng, case):
+        """1-3 configurations OTHER than the object's own for check_config_valid: more / less / negative warm-up, the largest
+        warm-up that still fits and one sample more, another magnification, other offsets"""
+        (l0, s0), (l1, s1) = case["shapes"]
+        M = case["mag"]
+        fit = min(s0 - l1 * M, s1 - l0 * M)
+        out = []
+        for _ in range(rng.choice([1, 2, 2, 3])):
+            q = {k: case[k] for k in ("spotsize", "speed", "scantime", "warmup", "pairs")}
+            how = rng.choice(["fit", "fit+1", "more", "neg", "mag", "mag", "pairs"])
+            if how == "fit":
+                q["warmup"] = max(fit, 0) * q["scantime"]
+            elif how == "fit+1":
+                q["warmup"] = (max(fit, 0) + 1) * q["scantime"]
+            elif how == "more":
+                q["warmup"] = rng.choice([1, 2, 8, 50]) * q["scantime"] + q["warmup"]
+            elif how == "neg":
+                q["warmup"] = -rng.choice([1, 3]) * q["scantime"]
+            elif how == "mag":
+                M2 = rng.choice([m for m in (1, 2, 3, 4, 5, 7) if m != M])
+                q["spotsize"], q["speed"], q["scantime"] = int_mag_triple(rng, M2)
+                q["warmup"] = rng.choice([0, 0, 1, 2]) * q["scantime"]
+            else:
+                q["pairs"] = gen_pairs(rng)
+            out.append(q)
+        case["probes"] = out
+
+    def gen_cal(self, rng, case):
+        """calibrations of the elements (a quarter of them the default one, never all) and 1-3 calls of get made before the
+        observations of every state: calibrate mostly, one element or all, a layer or the reconstruction, flat or not"""
+        nel = case["nel"]
+        cal = []
+        for _ in range(nel):
+            if rng.random() < 0.25:
+                cal.append(None)
+                continue
+            b, g = rng.choice([0.0, 1.0, -2.0, 0.5, 0.25, 3.0, 10.0]), rng.choice([2.0, 0.5, 4.0, 3.0, 0.7, -1.0, 1.0, 0.125])
+            cal.append([b, 2.0 if (b, g) == (0.0, 1.0) else g])
+        if all(q is None for q in cal):
+            cal[rng.randrange(nel)] = [1.0, 2.0]
+        case["cal"] = cal
+        case["creads"] = [{"element": None if rng.random() < 0.55 else rng.randrange(3), "calibrate": rng.random() < 0.85,
+                           "flat": rng.random() < 0.3, "layer": rng.randrange(16) if rng.random() < 0.6 else None}
+                          for _ in range(rng.choice([1, 1, 2, 2, 3]))]
+        case["creads_at"] = rng.choice(["first", "first", "mid"])
 
     def gen_ctor(self, rng, case):
         """how the object is made: SRRLaser(...) mostly, SRRLaser.from_list (float64 stacks) or SRRLaser.from_lasers"""
         r = rng.random()
-        if r < 0.08 and case.get("dtype", "f8") == "f8":
+        if r < 0.08 and case.get("dtype", "f8") == "f8" and "dtypes" not in case:
             case["ctor"] = "from_list"
         elif r < 0.16:
             case["ctor"] = "from_lasers"
@@ -343,6 +527,8 @@ class C09(Prop):
                     "shapes": [[l0, w + l1 * M + rng.choice([0, 0, 2])], [l1, w + l0 * M + rng.choice([0, 1])]], "short": None,
                     "wmode": "exact", "nel": rng.choice([1, 1, 2]), "element": rng.randrange(2)}
             self.gen_payload(rng, case, plain=0.7)
+            if rng.random() < 0.3:
+                self.gen_cal(rng, case)
             if rng.random() < 0.3:
                 case["kind"], case["order"] = "history", "std"
                 case["steps"] = [rng.choice([{"op": "pop"}, {"op": "append"}, {"op": "replace", "layer": n - 1}, {"op": "rename", "map": [["A", "D"]]},
@@ -386,15 +572,23 @@ class C09(Prop):
     def gen_payload(self, rng, case, plain=0.6):
         """the sample dtype and payload of a stack: float64 integers mostly; float32 / integer dtypes, fractional payloads
         (token / 2, token / 4), tokens beyond 2^40 (float64, int64), negative tokens"""
+        if rng.random() < 0.2:
+            case["layout"] = rng.choice(LAYOUTS)  # the layers' memory layout: Fortran order / strided window / transposed base
         if rng.random() < plain:
             return
-        dt = rng.choice(["f8", "f8", "f8", "f4", "f4", "i8", "i4", "u2"])
+        if rng.random() < 0.25:
+            # one dtype per field (mixed kinds, sizes and byte orders)
+            case["dtypes"] = [rng.choice(["f8", "f4", "i8", "i4", "u2", "F8", "F4", "I4"]) for _ in range(3)]
+            if rng.random() < 0.5 and any(k.lower() in ("f8", "f4") for k in case["dtypes"]):
+                case["scale"] = rng.choice([0.5, 0.25])
+            return
+        dt = rng.choice(["f8", "f8", "f8", "f4", "f4", "i8", "i4", "u2", "F8", "F4", "I4"])
         case["dtype"] = dt
-        if dt in ("f8", "f4") and rng.random() < 0.6:
+        if dt in ("f8", "f4", "F8", "F4") and rng.random() < 0.6:
             case["scale"] = rng.choice([0.5, 0.25])
-        if dt in ("f8", "i8") and rng.random() < 0.4:
+        if dt in ("f8", "i8", "F8") and rng.random() < 0.4:
             case["base"] = rng.choice([2**40 + 1, -(2**40), 2**33 + 5])
-        elif dt in ("f4", "i4") and rng.random() < 0.2:
+        elif dt in ("f4", "i4", "F4", "I4") and rng.random() < 0.2:
             case["base"] = -4000
 
     def gen_history(self, rng):
@@ -408,6 +602,11 @@ class C09(Prop):
         case["kind"] = "history"
         self.gen_payload(rng, case, plain=0.5)
         self.gen_ctor(rng, case)
+        if rng.random() < 0.5:
+            self.gen_cal(rng, case)
+        self.gen_extra(rng, case, 0.2)
+        if rng.random() < 0.4:
+            self.gen_probes(rng, case)
         M, n = case["mag"], case["n"]
         (l0, s0), (l1, s1) = case["shapes"]
         pairs_cur = case["pairs"]
@@ -424,7 +623,7 @@ class C09(Prop):
         steps = []
         for _ in range(rng.choice([1, 1, 1, 1, 1, 2, 2, 2, 3])):
             op = rng.choice(["replace", "edit", "edit", "config", "config", "rename", "rename", "add", "add", "remove", "remove",
-                             "setdata", "setdata", "setdata", "append", "pop", "params", "scribble"])
+                             "setdata", "setdata", "setdata", "append", "pop", "params", "params", "params", "scribble", "cal"])
             i = rng.randrange(n)
             if op == "remove" and len(names) < 2:
                 op = "add"
@@ -469,8 +668,8 @@ class C09(Prop):
                 stp = {"op": "setdata", "via": rng.choice(["list", "items"])}
                 if what == "dtype":
                     cur_dt = case.get("dtype", "f8")
-                    stp["dtype"] = rng.choice([d for d in ("f8", "f8", "f4", "i8", "i4", "u2") if d != cur_dt])
-                    stp["scale"] = rng.choice([1, 0.5, 0.25]) if stp["dtype"] in ("f8", "f4") else 1
+                    stp["dtype"] = rng.choice([d for d in ("f8", "f8", "f4", "i8", "i4", "u2", "F8", "I4") if d != cur_dt])
+                    stp["scale"] = rng.choice([1, 0.5, 0.25]) if stp["dtype"] in ("f8", "f4", "F8") else 1
                 elif what == "names":
                     k = rng.choice([len(names), len(names), 1, 2, 3])
                     pool = [x for x in ["P", "Q", "R"] + names if True]
@@ -501,15 +700,34 @@ class C09(Prop):
                 n -= 1
             elif op == "scribble":
                 steps.append({"op": "scribble"})
+            elif op == "cal":
+                steps.append({"op": "cal", "field": rng.randrange(3), "b": rng.choice([0.0, 1.0, 0.5, -2.0]), "g": rng.choice([2.0, 4.0, 3.0, 0.5])})
+                if "creads" not in case:
+                    case["creads"] = [{"element": None, "calibrate": True, "flat": False, "layer": rng.randrange(16)}]
             elif op == "params":
                 # another integer magnification for which the stack is still long enough
                 cands = [m for m in (1, 2, 3, 4, 5) if m != M and w + l1 * m <= s0 and w + l0 * m <= s1 and vox(l0, l1, m, n, pairs_cur) <= 3500]
                 if not cands:
                     steps.append({"op": "scribble"})
                     continue
-                M = rng.choice(cands)
-                sp, v, t = int_mag_triple(rng, M)
-                steps.append({"op": "params", "spotsize": sp, "speed": v, "scantime": t, "mag": M})
+                M2 = rng.choice(cands)
+                cur3 = next(([x["spotsize"], x["speed"], x["scantime"]] for x in reversed(steps) if x["op"] == "params"),
+                            [case["spotsize"], case["speed"], case["scantime"]])
+                stp = None
+                if rng.random() < 0.6:
+                    # ONE attribute assigned (spot size scaled, or speed / scan time divided) so that the float magnification is M2
+                    for only in rng.sample(["spotsize", "speed", "scantime"], 3):
+                        c3 = list(cur3)
+                        j = ["spotsize", "speed", "scantime"].index(only)
+                        c3[j] = cur3[j] * M2 / M if j == 0 else cur3[j] * M / M2
+                        if c3[j] > 0 and c3[0] / (c3[1] * c3[2]) == float(M2):
+                            stp = {"op": "params", "spotsize": c3[0], "speed": c3[1], "scantime": c3[2], "mag": M2, "only": only}
+                            break
+                if stp is None:
+                    sp, v, t = int_mag_triple(rng, M2)
+                    stp = {"op": "params", "spotsize": sp, "speed": v, "scantime": t, "mag": M2}
+                M = M2
+                steps.append(stp)
             else:
                 w2 = rng.randint(0, w)  # not more warm-up than before: the stack stays long enough
                 pairs2 = pairs_cur
@@ -601,6 +819,60 @@ class C09(Prop):
         yield {**hbase, "steps": [{"op": "rename", "map": [["A", "C"]], "obs": True}, {"op": "rename", "map": [["C", "A"]], "obs": True},
                                   {"op": "edit", "layer": 1, "cells": "all"}]}
         yield {**hbase, "steps": [{"op": "add", "name": "D", "dtype": "f4"}, {"op": "remove", "names": ["A", "B"]}]}
+        # ---- calls of get(calibrate=True, ...) before the observations: the store must be what it was
+        cbase = {**base, "spotsize": 35.0, "mag": 1, "warmup": 0.25, "pairs": [[0, 2], [1, 2]], "shapes": [[3, 7], [4, 6]], "n": 3,
+                 "nel": 2, "element": 1, "cal": [[1.0, 2.0], None]}
+        yield {**cbase, "creads": [{"element": None, "calibrate": True, "flat": False, "layer": k} for k in range(3)]}
+        yield {**cbase, "creads": [{"element": None, "calibrate": True, "flat": False, "layer": 1}], "creads_at": "mid"}
+        yield {**cbase, "creads": [{"element": None, "calibrate": True, "flat": False, "layer": None},
+                                   {"element": None, "calibrate": True, "flat": True, "layer": None}]}
+        yield {**cbase, "cal": [[0.5, 3.0], [-2.0, 0.5]], "creads": [{"element": 0, "calibrate": True, "flat": False, "layer": 2},
+                                                                     {"element": 1, "calibrate": True, "flat": True, "layer": None},
+                                                                     {"element": 1, "calibrate": True, "flat": False, "layer": None}]}
+        yield {**cbase, "dtype": "f4", "scale": 0.5, "creads": [{"element": None, "calibrate": True, "flat": False, "layer": 0}]}
+        yield {**cbase, "dtype": "i8", "creads": [{"element": None, "calibrate": True, "flat": False, "layer": 0},
+                                                  {"element": 0, "calibrate": True, "flat": False, "layer": 1}]}
+        hcal = {**hbase, "cal": [[1.0, 2.0], [0.25, 4.0]], "creads": [{"element": None, "calibrate": True, "flat": False, "layer": 1},
+                                                                      {"element": None, "calibrate": True, "flat": False, "layer": None}]}
+        yield {**hcal, "steps": [{"op": "rename", "map": [["A", "B"], ["B", "A"]]}]}
+        yield {**hcal, "steps": [{"op": "add", "name": "D", "dtype": "f8"}, {"op": "remove", "names": ["A"]}]}
+        yield {**hcal, "steps": [{"op": "cal", "field": 1, "b": 0.0, "g": 2.0, "obs": True}, {"op": "edit", "layer": 1, "cells": [[0, 0]]}]}
+        yield {**hcal, "steps": [{"op": "setdata", "names": ["P", "A"], "via": "list"}], "creads_at": "mid"}
+        yield {**hcal, "steps": [{"op": "scribble"}], "ctor": "from_list"}
+        yield {**hcal, "steps": [{"op": "replace", "layer": 1}], "ctor": "from_lasers"}
+        # ---- check_config_valid(config) with configurations other than the object's own
+        pq = {"spotsize": 70.0, "speed": 140.0, "scantime": 0.25, "warmup": 0.25, "pairs": [[0, 1]]}
+        yield {**base, "spotsize": 70.0, "mag": 2, "warmup": 0.25, "pairs": [[1, 3], [1, 2]], "shapes": [[3, 7], [2, 9]], "n": 3,
+               "probes": [{**pq, "warmup": 0.5}, {**pq, "warmup": 0.75}, {**pq, "warmup": 1.0}, {**pq, "warmup": -0.25},
+                          {**pq, "spotsize": 35.0}, {**pq, "spotsize": 105.0, "warmup": 0.0}, {**pq, "spotsize": 140.0, "warmup": 0.0}]}
+        yield {**hbase, "probes": [{**pq, "warmup": 0.75}, {**pq, "spotsize": 105.0, "warmup": 0.0}],
+               "steps": [{"op": "setdata", "shapes": [[2, 8], [3, 5]], "via": "list"}]}
+        # ---- same-parity layers of different lengths
+        rag = {**base, "spotsize": 70.0, "mag": 2, "warmup": 0.25, "pairs": [[1, 3], [1, 2]], "shapes": [[3, 5], [2, 7]], "nel": 2, "element": 1}
+        yield {**rag, "n": 3, "extra": [0, 0, 2]}
+        yield {**rag, "n": 5, "extra": [0, 0, 1, 4, 0]}
+        yield {**rag, "n": 4, "extra": [3, 2, 0, 0]}
+        yield {**rag, "n": 4, "extra": [0, 1, 2, 0], "kind": "history", "order": "std", "steps": [{"op": "edit", "layer": 2, "cells": [[0, 6]]}]}
+        # ---- ONE raster attribute of the config assigned between two reconstructions (derived quantities must follow)
+        p2 = {"spotsize": 70.0, "speed": 140.0, "scantime": 0.25}
+        yield {**hbase, "steps": [{"op": "params", **p2, "spotsize": 35.0, "mag": 1, "only": "spotsize"}]}
+        yield {**hbase, "steps": [{"op": "params", **p2, "speed": 280.0, "mag": 1, "only": "speed"}]}
+        yield {**hbase, "steps": [{"op": "params", **p2, "scantime": 0.5, "mag": 1, "only": "scantime"}]}
+        yield {**hbase, "shapes": [[3, 9], [2, 13]], "steps": [{"op": "params", **p2, "spotsize": 140.0, "mag": 4, "only": "spotsize"}]}
+        yield {**hbase, "pairs": [[0, 2], [1, 2]], "steps": [
+            {"op": "params", **p2, "speed": 280.0, "mag": 1, "only": "speed", "obs": True},
+            {"op": "config", "via": "setter", "pairs": [[0, 3], [2, 3]], "warmup": 0.25, "obs": True},
+            {"op": "params", "spotsize": 140.0, "speed": 280.0, "scantime": 0.25, "mag": 2, "only": "spotsize"}]}
+        # ---- memory layouts of the layers, one dtype per field, big-endian fields
+        for lay in LAYOUTS:
+            yield {**base, "spotsize": 70.0, "mag": 2, "warmup": 0.25, "pairs": [[1, 3], [1, 2]], "shapes": [[3, 7], [2, 9]], "n": 3,
+                   "nel": 2, "element": 0, "layout": lay}
+        yield {**hbase, "layout": "strided", "steps": [{"op": "edit", "layer": 1, "cells": [[1, 2]]}]}
+        yield {**hbase, "layout": "F", "cal": [[1.0, 2.0], None], "creads": [{"element": None, "calibrate": True, "flat": False, "layer": 1}],
+               "steps": [{"op": "scribble"}]}
+        yield {**base, "spotsize": 70.0, "mag": 2, "warmup": 0.25, "pairs": [[1, 3], [1, 2]], "shapes": [[3, 7], [2, 9]], "n": 3,
+               "nel": 3, "element": 2, "dtypes": ["F8", "i4", "f4"], "scale": 0.5}
+        yield {**hbase, "dtypes": ["I4", "F4"], "steps": [{"op": "add", "name": "D", "dtype": "F8"}]}
         # ---- sample dtypes and payloads of a fresh stack
         for dt, extra in (("f4", {"scale": 0.25}), ("i8", {"base": -(2**40)}), ("i4", {}), ("u2", {}), ("f8", {"scale": 0.5, "base": 2**40 + 1})):
             yield {**base, "spotsize": 70.0, "mag": 2, "warmup": 0.25, "pairs": [[1, 3], [1, 2]], "shapes": [[3, 7], [2, 9]], "n": 3,
@@ -629,11 +901,14 @@ class C09(Prop):
     def case_fields(self, case):
         """the fields [name, dtype.str] and the float payload scale of the stack a case starts with"""
         names = case.get("names") or NAMES[:case["nel"]]
-        dt = DTYPES.get(case.get("dtype", "f8"))
+        keys = case.get("dtypes") or [case.get("dtype", "f8")]  # one dtype for all fields, or one per field (cycled)
         fscale = case.get("scale", 1)
-        ok = (dt is not None and fscale in SCALES and isinstance(names, list) and len(names) >= 1 and len(set(names)) == len(names)
-              and all(isinstance(n, str) and n.isidentifier() for n in names))
-        return [[n, dt] for n in names], fscale, ok
+        ok = (isinstance(keys, list) and keys and all(isinstance(k, str) and k in DTYPES for k in keys) and fscale in SCALES
+              and isinstance(names, list) and len(names) >= 1 and len(set(names)) == len(names)
+              and all(isinstance(n, str) and n.isidentifier() for n in names) and case.get("layout") in (None,) + LAYOUTS)
+        if not ok:
+            return [[n, None] for n in names] if isinstance(names, list) else [], fscale, False
+        return [[n, DTYPES[keys[j % len(keys)]]] for j, n in enumerate(names)], fscale, ok
 
     def enc_stack(self, shapes, nfields, start):
         """fresh tokens for a stack of the given layer shapes: every sample of every field a number no other sample has"""
@@ -647,13 +922,13 @@ class C09(Prop):
     def build_layers(self, case):
         """-> (arrays, encoded layers, fields, float scale, next unused token); arrays is None when the payload does not fit the dtype"""
         fields, fscale, ok = self.case_fields(case)
-        if not ok:
+        if not ok or not extra_ok(case):
             return None, None, fields, fscale, 0
         base = int(case.get("base", 1))
-        enc, fresh = self.enc_stack(stack_shapes(case), len(fields), base)
+        enc, fresh = self.enc_stack(stack_shapes9(case), len(fields), base)
         if not payload_ok(fields, enc, fscale):
             return None, enc, fields, fscale, fresh
-        layers = [make_layer(fields, L["rows"], L["cols"], L["data"], fscale) for L in enc]
+        layers = [relayout(make_layer(fields, L["rows"], L["cols"], L["data"], fscale), case.get("layout")) for L in enc]
         return layers, enc, fields, fscale, max(abs(base), abs(fresh)) + 1
 
     def evaluate(self, case, ctx):
@@ -694,31 +969,47 @@ class C09(Prop):
             raise core.InternalError("generator: magnification is not the intended float integer")
         cfg = make_srr_cfg(case)
         ctor = case.get("ctor", "init")
+        # calibrations of the elements (None / no entry: the default Calibration()) and the calls of get made before the
+        # observations of every state (`creads`)
+        from pewlib.calibration import Calibration
+
+        cal = case.get("cal")
+        creads = case.get("creads", [])
+        if not cal_ok(cal, len(fields)) or not isinstance(creads, list) or not all(read_ok(rd) for rd in creads):
+            return outcome(None, None, None, spec_ok=True, model_ok=True, undetermined=True, hyp=False, features=[])
+        caldict = {f[0]: Calibration(intercept=float(q[0]), gradient=float(q[1])) for f, q in zip(fields, cal or []) if q is not None}
+        cal0 = [[f[0], rat(float(q[0])), rat(float(q[1]))] if q is not None else [f[0], rat(0.0), rat(1.0)]
+                for f, q in zip(fields, cal or [None] * len(fields))]
         if ctor == "from_list" and all(f[1] == "<f8" for f in fields):
-            # the classmethod builds float64 structured layers from one plain array per element and layer
+            # the classmethod builds float64 structured layers from one plain array per element and layer; it takes no
+            # calibrations: they are put into the public dict afterwards
             laser = SRRLaser.from_list([f[0] for f in fields], [[np.array(a[f[0]]) for f in fields] for a in layers], config=cfg)
+            for nm, c in caldict.items():
+                laser.calibration[nm] = c
         elif ctor == "from_lasers":
-            # stacked from one Laser per layer (raster parameters of the first one, default warm-up and offsets), then given the config
+            # stacked from one Laser per layer (raster parameters and calibrations of the first one, default warm-up and
+            # offsets), then given the config
             from pewlib.config import Config
             from pewlib.laser import Laser
 
             raster = Config(spotsize=case["spotsize"], speed=case["speed"], scantime=case["scantime"])
-            laser = SRRLaser.from_lasers([Laser(a, config=raster) for a in layers])
+            laser = SRRLaser.from_lasers([Laser(a, calibration=caldict if k == 0 else None, config=raster) for k, a in enumerate(layers)])
             laser.config = cfg
         else:
             ctor = "init"
-            laser = SRRLaser(layers, config=cfg)
+            laser = SRRLaser(layers, calibration=caldict if (caldict or cal is not None) else None, config=cfg)
         st = {"ctor": ctor, "fields": fields, "enc": enc, "sops": [], "fscale": fscale, "fresh": fresh,
-              "low": 1 if abs(int(case.get("base", 1))) >= 2**30 else None}
+              "low": 1 if abs(int(case.get("base", 1))) >= 2**30 else None, "cal0": cal0}
+        cur = {"fields": [list(f) for f in fields], "shapes": [list(x) for x in stack_shapes9(case)]}
         if kind == "history":
-            return self.eval_history(case, ctx, laser, st)
-        r = self.eval_state(case, ctx, laser, cfg, st)
+            return self.eval_history(case, ctx, laser, st, cur)
+        r = self.eval_state(case, ctx, laser, cfg, st, cur=cur)
         if r.get("excluded"):
             return outcome(None, None, None, spec_ok=True, model_ok=True, undetermined=True, hyp=False, features=[])
         return outcome(r["impl"], r["model"], r["spec"], spec_ok=r["spec_ok"], model_ok=r["model_ok"],
                        undetermined=r["undet"], features=r["feats"], note=r["note"])
 
-    def eval_state(self, case, ctx, laser, cfg, st, order="std"):
+    def eval_state(self, case, ctx, laser, cfg, st, order="std", cur=None):
         """every observation of the property on `laser` in its CURRENT state, against the model/specification that the driver
         computes from the INPUTS: the stack the object was built with (`st["fields"]`, `st["enc"]`) and the changes made to it since
         (`st["sops"]`, applied by Lean's `Stack.applyAll`), the constructor arguments + later changes of the configuration described
@@ -752,21 +1043,40 @@ class C09(Prop):
                 arrays = [arr_enc, raster_enc]
         except Exception as ex:
             arr, arr_note = None, {"raises": type(ex).__name__, "msg": str(ex)[:200]}
+        # ---- the calls of get made BEFORE the observations of this state (`creads`: any mixture of calibrate / element /
+        # layer / flat), resolved against the fields and layers the object holds now; reconstructions only when accepted
+        valid = bool(laser.check_config_valid(laser.config))
+        reads = []
+        if cur is not None:
+            cf, cn = cur["fields"], len(cur["shapes"])
+            for rd in case.get("creads", []):
+                lay = None if rd.get("layer") is None else rd["layer"] % cn
+                if lay is None and not valid:
+                    continue
+                reads.append({"element": None if rd.get("element") is None else cf[rd["element"] % len(cf)][0],
+                              "calibrate": bool(rd.get("calibrate", False)), "flat": bool(rd.get("flat", False)), "layer": lay})
         rep = ctx.driver.call("c09.srr", cfg=srr_cfg_json(case), fields=st["fields"], layers=st["enc"], stack_ops=st["sops"],
-                              arrays=arrays)
+                              arrays=arrays, cal0=st["cal0"], fscale=rat(float(st["fscale"])), reads=reads)
         if not rep["stack_ok"]:
             raise core.InternalError("a change of the stack that the model does not cover reached eval_state")
+        if not (rep["reads_are_spec"] and rep["store_unchanged_by_reads"]):
+            raise core.InternalError("the mechanism model of SRRLaser.get contradicts its specification (theorems get_eq_spec / "
+                                     "reads_do_not_change_store)")
         mj = rep["config"]
         if not mj["integer_mag"] or mj["mag"] != case["mag"]:
             raise core.InternalError("generator: the model's float64 magnification is not the intended integer")
-        if not rep["crossed"]:
-            raise core.InternalError("generator: the stack is not crossed")
+        if not rep["lines_crossed"]:
+            raise core.InternalError("generator: the stack does not have the lines of a crossed stack")
+        if not rep["crossed"] and rep["valid_spec"] and not rep["all_long_enough"]:
+            # same-parity layers of different lengths, the first two long enough, a later one not: the validity check (which reads
+            # layers 0 and 1) accepts what cannot be reconstructed - DESIGN 9.5, outside the quantifier ("s exceeding the needed length")
+            return {"excluded": True}
         # ---- the stack the object should hold now (Lean): fields, layers
         fields = rep["fields"]
         names = [f[0] for f in fields]
         scales = [field_scale(f[1], st["fscale"]) for f in fields]
         kinds = [kind_of(f[1]) for f in fields]
-        rels = [FLAT_REL32 if f[1] == "<f4" else FLAT_REL for f in fields]
+        rels = [FLAT_REL32 if f[1].endswith("f4") else FLAT_REL for f in fields]
         nel, n = len(fields), len(rep["stack"])
         e = case["element"] % nel
         if not payload_ok(fields, rep["stack"], st["fscale"]):
@@ -783,9 +1093,88 @@ class C09(Prop):
             setter_exact = srep["sets"][0]["observed_exact"]
 
         # ---- implementation, observed at check_config_valid / get / krisskross and the config's array round trip
-        valid = bool(laser.check_config_valid(laser.config))
         impl = {"valid": valid}
-        returned = []  # the arrays the reconstructions handed out (a later step of a history may write into them)
+        returned = []  # the arrays the reads handed out (a later step of a history may write into them)
+        creads_at = case.get("creads_at", "first")
+        cr_impl, cr_model, cr_feats = [], [], set()
+
+        def do_reads():
+            """the calls of `creads` on the object; each result against the driver's (model of SRRLaser.get on the stored layers
+            and the calibrations: 1e-12 of the magnitudes involved, 2^-20 for float32 fields; exact without calibrate).  A field
+            of integer dtype that get(calibrate=True) without an element wrote back into its own dtype is not compared.  Plain
+            reads that differ from the model are a broken correspondence; CALIBRATED values that differ are recorded only."""
+            cal_now = {c[0]: (float(unrat(c[1])), float(unrat(c[2]))) for c in rep["cal"]}
+            vmax = [max([abs(v) for L in rep["stack"] for px in L["data"] for v in px[k:k + 1]] + [1]) * scales[k] for k in range(nel)]
+            for rd, mj in zip(reads, rep["reads_model"]):
+                kw = {"calibrate": rd["calibrate"], "flat": rd["flat"], "layer": rd["layer"]}
+                tag = {"args": rd}
+                try:
+                    res = laser.get(rd["element"], **kw)
+                except Exception as ex:
+                    ent = {**tag, "raises": type(ex).__name__, "msg": str(ex)[:200]}
+                    cr_impl.append(ent)
+                    if rd["calibrate"]:
+                        cr_model.append(ent)
+                        if mj is not None:
+                            cr_feats.add("calibrated read: raises where the model returns (recorded only)")
+                    else:
+                        cr_model.append({**tag, "raises": True} if mj is None else {**tag, "shape": mj["shape"], "agrees_with_model": True})
+                    continue
+                returned.append(res)
+                if mj is None:
+                    ent = {**tag, "shape": list(res.shape)}
+                    cr_impl.append(ent)
+                    if rd["calibrate"]:
+                        cr_model.append(ent)
+                        cr_feats.add("calibrated read: returns where the model raises (recorded only)")
+                    else:
+                        cr_model.append({**tag, "raises": True})
+                    continue
+                sel = list(range(nel)) if rd["element"] is None else [names.index(rd["element"])]
+                got = read_values(res, [names[k] for k in sel])
+                ok = got is not None and list(res.shape) == mj["shape"]
+                first = None
+                if ok:
+                    want = model_values(mj)
+                    ok = want.shape == got.shape
+                    for pos, k in enumerate(sel if ok else []):
+                        if rd["calibrate"] and rd["element"] is None and kinds[k] != "f":
+                            cr_feats.add("calibrated read of all elements: integer field written back truncated, not compared")
+                            continue
+                        b, g = cal_now.get(names[k], (0.0, 1.0))
+                        if rd["calibrate"] and (b, g) != (0.0, 1.0):
+                            tol = (2.0**-20 if fields[k][1].endswith("f4") else 1e-12) * (vmax[k] + abs(b)) / abs(g)
+                        else:
+                            tol = (2.0**-20 * vmax[k]) if (rd["flat"] and rd["layer"] is None and fields[k][1].endswith("f4")) else (
+                                1e-12 * vmax[k] if (rd["flat"] and rd["layer"] is None) else 0.0)
+                        d = np.abs(got[..., pos] - want[..., pos])
+                        if rd["flat"] and rd["layer"] is None and rd["element"] is None and kinds[k] != "f":
+                            continue  # structured flat image of an integer field: truncated by pewlib (see assumptions)
+                        if not np.all(d <= tol):
+                            ok = False
+                            at = np.unravel_index(int(np.argmax(d)), d.shape)
+                            first = {"field": names[k], "at": [int(x) for x in at], "got": float(got[..., pos][at]), "model": float(want[..., pos][at])}
+                            break
+                if rd["calibrate"]:
+                    # no clause of the property says what a CALIBRATED read returns: a difference from the model is recorded (feature,
+                    # evidence), never a verdict (notes/SECTION13.md 13.2); what is demanded is that the store is unchanged afterwards
+                    ent = {**tag, "shape": list(res.shape), "calibrated_values_agree_with_model": bool(ok),
+                           **({"first_difference": first} if first else {})}
+                    cr_impl.append(ent)
+                    cr_model.append(ent)
+                    if not ok:
+                        cr_feats.add("calibrated read: values differ from the model (recorded only)")
+                else:
+                    cr_impl.append({**tag, "shape": list(res.shape), "agrees_with_model": bool(ok), **({"first_difference": first} if first else {})})
+                    cr_model.append({**tag, "shape": mj["shape"], "agrees_with_model": True})
+                cr_feats.add("cread:" + ("calibrated" if rd["calibrate"] else "plain") + (":layer" if rd["layer"] is not None else (":flat" if rd["flat"] else ":recon"))
+                             + (":element" if rd["element"] is not None else ":all"))
+                if rd["calibrate"] and rd["layer"] is not None and rd["element"] is None and any(
+                        cal_now.get(nm, (0.0, 1.0)) != (0.0, 1.0) for nm in names):
+                    cr_feats.add("cread:in-place-calibration-of-a-layer-copy")
+
+        if reads and creads_at == "first":
+            do_reads()
         if valid:
             try:
                 if order == "flat-first":
@@ -799,30 +1188,37 @@ class C09(Prop):
                 kk = laser.krisskross()
                 returned.append(kk)
                 impl["krisskross"] = enc3(kk, names, scales)
-                el = laser.get(names[e])
-                returned.append(el)
-                impl["element"] = {"shape": list(el.shape),
-                                   "data": [[tokens(v, scales[e]) for v in row] for row in el]}
+                impl["elements"], impl["flat_elements"] = [], []
+                for k in range(nel):  # get(name) / get(name, flat=True) for EVERY element
+                    el = laser.get(names[k])
+                    returned.append(el)
+                    impl["elements"].append({"shape": list(el.shape), "data": [[tokens(v, scales[k]) for v in row] for row in el]})
                 fl = laser.get(flat=True)
                 returned.append(fl)
                 impl["flat"] = {"shape": list(fl.shape), "data": [[[float(fl[nm][r, c]) / sc for c in range(fl.shape[1])]
                                                                     for r in range(fl.shape[0])] for nm, sc in zip(names, scales)]}
-                fe = laser.get(names[e], flat=True)
-                returned.append(fe)
-                impl["flat_element"] = {"shape": list(fe.shape), "data": [[float(v) / scales[e] for v in row] for row in fe]}
+                for k in range(nel):
+                    fe = laser.get(names[k], flat=True)
+                    returned.append(fe)
+                    impl["flat_elements"].append({"shape": list(fe.shape), "data": [[float(v) / scales[k] for v in row] for row in fe]})
             except Exception as ex:
                 impl["recon"] = {"raises": type(ex).__name__, "msg": str(ex)[:200]}
+        if reads and creads_at != "first":
+            do_reads()  # between the reconstructions and the layer reads
         impl["offsets_exact"] = setter_exact
         impl["layers"], impl["layers_flat"] = [], []
         impl["layers_element"] = []
         for i in range(n):
             for key, kw in (("layers", {}), ("layers_flat", {"flat": True})):
                 try:
-                    impl[key].append(enc2(laser.get(layer=i, **kw), names, scales))
+                    lr = laser.get(layer=i, **kw)
+                    returned.append(lr)
+                    impl[key].append(enc2(lr, names, scales))
                 except Exception as ex:
                     impl[key].append({"raises": type(ex).__name__, "msg": str(ex)[:200]})
             try:  # get(element, layer=i): that element of the layer
                 le = laser.get(names[e], layer=i, flat=bool(i % 3 == 1))
+                returned.append(le)
                 impl["layers_element"].append({"shape": list(le.shape), "data": [tokens(row, scales[e]) for row in le]} if le.ndim == 2
                                               else {"shape": list(le.shape)})
             except Exception as ex:
@@ -838,6 +1234,26 @@ class C09(Prop):
             impl["config"] = obs_cfg(cfg)
         except Exception as ex:
             impl["config"] = {"raises": type(ex).__name__, "msg": str(ex)[:200]}
+        # ---- check_config_valid(config) for configurations OTHER than the one the object holds (`probes`): the answer is about the
+        # configuration passed in, compared in both directions with Lean's validSpec for it (near-integer magnifications and
+        # warm-ups decided by float rounding are not judged)
+        pr_impl, pr_model, pr_spec, pr_feats = [], [], [], set()
+        probes = [q for q in case.get("probes", []) if probe_ok(q)]
+        if probes:
+            prep = ctx.driver.call("c09.valid", shapes=[[L["rows"], L["cols"]] for L in rep["stack"]],
+                                   cfgs=[srr_cfg_json(q) for q in probes])["configs"]
+            for q, pj in zip(probes, prep):
+                if not pj["integer_mag"] or float_mag(q) != float(pj["mag"]):
+                    continue
+                try:
+                    got = bool(laser.check_config_valid(make_srr_cfg(q)))
+                except Exception as ex:
+                    got = {"raises": type(ex).__name__, "msg": str(ex)[:200]}
+                pr_impl.append(got)
+                pr_model.append(pj["valid"])
+                pr_spec.append(pj["valid_spec"] if pj["warmup_determined"] else got)
+                pr_feats.add("probe-config:" + ("accepted" if got is True else "rejected"))
+        impl["probes"] = pr_impl
         if arr is None:
             impl["array"] = impl["roundtrip"] = impl["from_raster_array"] = arr_note
         else:
@@ -867,9 +1283,14 @@ class C09(Prop):
                 return False
             if not (core.canon(impl["recon"]) == core.canon(target) and core.canon(impl["krisskross"]) == core.canon(target)):
                 return False
-            if core.canon(impl["element"]) != core.canon(pick_element(target, e)):
+            if len(impl.get("elements", [])) != nel or len(impl.get("flat_elements", [])) != nel:
                 return False
-            if impl["flat"]["shape"] != target["shape"][:2] or impl["flat_element"]["shape"] != target["shape"][:2]:
+            for k in range(nel):
+                if core.canon(impl["elements"][k]) != core.canon(pick_element(target, k)):
+                    return False
+                if impl["flat_elements"][k]["shape"] != target["shape"][:2]:
+                    return False
+            if impl["flat"]["shape"] != target["shape"][:2]:
                 return False
             for k in range(nel):
                 if kinds[k] != "f":
@@ -878,10 +1299,14 @@ class C09(Prop):
                     continue
                 if "data" not in flats[k] or not flat_close(impl["flat"]["data"][k], flats[k]["data"], rels[k]):
                     return False
-            return flat_close(impl["flat_element"]["data"], flats[e]["data"], rels[e])
+            return all("data" in flats[k] and flat_close(impl["flat_elements"][k]["data"], flats[k]["data"], rels[k]) for k in range(nel))
 
         def same(a, b):
             return core.canon(a) == core.canon(b)
+
+        def native(descr):
+            """field list with the byte-order mark dropped: which byte order the RESULT of a reconstruction has is nobody's clause"""
+            return [[f[0], f[1].lstrip("<>=|")] for f in descr] if isinstance(descr, list) else descr
 
         def agrees(o, v):
             """a configuration the implementation holds against the model's (exact floats; errors by class)"""
@@ -906,10 +1331,19 @@ class C09(Prop):
         model_ok = (valid == (rep["valid"] is True) and recon_ok(model["recon"], rep["flat_model"])
                     and same(impl["layers"], model["layers"]) and same(impl["layers_flat"], model["layers_flat"])
                     and same(impl["layers_element"], model["layers_element"]) and same(impl["stack"], model["stack"])
-                    and (not (valid and "data" in impl.get("recon", {})) or same(impl["recon_fields"], fields))
+                    and (not (valid and "data" in impl.get("recon", {})) or same(native(impl["recon_fields"]), native(fields)))
                     and agrees(impl["config"], model["config"]) and agrees(impl["roundtrip"], model["roundtrip"]))
         if arrays:
             model_ok = model_ok and same(impl["array"], model["array"]) and agrees(impl["from_raster_array"], model["from_raster_array"])
+        # the calls of get made before the observations: what they RETURN is a matter of model and code (no clause of the property
+        # speaks of calibrated values); that the observations after them still follow the geometric model is the specification
+        impl["creads"], model["creads"], spec["creads"] = cr_impl, cr_model, "no clause about the values; the store must be unchanged"
+        if len(cr_impl) != len(reads):
+            raise core.InternalError("not every call of creads was made")
+        model_ok = model_ok and same(cr_impl, cr_model)
+        model["probes"], spec["probes"] = pr_model, pr_spec
+        model_ok = model_ok and same(pr_impl, pr_model)
+        spec_ok = spec_ok and same(pr_impl, pr_spec)
 
         # float rounding of the warm-up quotient crosses a tie: the specification does not decide the warm-up in samples, so
         # nothing is demanded of the implementation; the MODEL (exact float64 arithmetic) still has to agree with it
@@ -949,6 +1383,12 @@ class C09(Prop):
                     feats.add("dtype:mixed-fields")
             if st.get("ctor", "init") != "init":
                 feats.add("ctor:" + st["ctor"])
+            if case.get("layout") and st.get("ctor", "init") != "from_list" and not st["sops"]:
+                feats.add("layout:" + case["layout"])
+            if any(d.startswith(">") for d in dts):
+                feats.add("dtype:big-endian")
+            if not rep["crossed"]:
+                feats.add("ragged: same-parity layers of different lengths")
             if n > 5:
                 feats.add("layers>5")
             if max(l0, l1) > 6:
@@ -959,6 +1399,14 @@ class C09(Prop):
                 feats.add("payload:fractional")
             if any(abs(v) >= 2**32 for L in rep["stack"] for px in L["data"][:1] for v in px):
                 feats.add("payload:beyond-2^32")
+        if valid and "data" in impl.get("recon", {}):
+            feats |= cr_feats | pr_feats
+            if cr_impl:
+                feats.add("creads:" + creads_at)
+            if len(mj["offs"]) + (mj["offs"][0] != 0) > n:
+                feats.add("offsets>layers")
+            if any(c[1:] != [rat(0.0), rat(1.0)] for c in rep["cal"]):
+                feats.add("calibration:non-identity")
         note = ""
         if not valid:
             note = "rejected"
@@ -972,13 +1420,13 @@ class C09(Prop):
                 "shapes": [[L["rows"], L["cols"]] for L in rep["stack"]]}
 
     # ------------------------------------------------------------------ histories on one object
-    def eval_history(self, case, ctx, laser, st):
+    def eval_history(self, case, ctx, laser, st, cur):
         """observe, change the SAME object step by step, observe again (after the last step, and after every step marked "obs").
         A step changes the object and, independently, the abstract description (`st["sops"]` for the stack - applied by Lean -,
         `case["ops"]` for the configuration)."""
         order = case.get("order", "std")
         excluded = outcome(None, None, None, spec_ok=True, model_ok=True, undetermined=True, hyp=False, features=[])
-        states = [self.eval_state(case, ctx, laser, laser.config, st, order=order)]
+        states = [self.eval_state(case, ctx, laser, laser.config, st, order=order, cur=cur)]
         if states[0].get("excluded"):
             return excluded
         cur = {"fields": states[0]["fields"], "shapes": states[0]["shapes"]}
@@ -999,18 +1447,19 @@ class C09(Prop):
             if r == "excluded":
                 return excluded
             if stp.get("obs") or k == len(steps) - 1:
-                states.append(self.eval_state(case2, ctx, laser, laser.config, st, order=order))
+                states.append(self.eval_state(case2, ctx, laser, laser.config, st, order=order, cur=cur))
                 if states[-1].get("excluded"):
                     return excluded
         if len(states) == 1:
-            states.append(self.eval_state(case2, ctx, laser, laser.config, st, order=order))
+            states.append(self.eval_state(case2, ctx, laser, laser.config, st, order=order, cur=cur))
         impl = {"states": [x["impl"] for x in states]}
         model = {"states": [x["model"] for x in states]}
         spec = {"states": [x["spec"] for x in states]}
         feats = set()
         if all(x["valid"] and "data" in x["impl"].get("recon", {}) for x in states):
             feats = {"history", f"history:order-{order}", f"history:steps{len(steps)}", f"history:observed{len(states)}x"} | hfeats
-            feats |= {f for f in states[-1]["feats"] if f.startswith(("mag", "layers", "elements", "dtype:", "payload:", "ctor:", "lines"))}
+            feats |= {f for x in states for f in x["feats"] if f.startswith(("mag", "layers", "elements", "dtype:", "payload:", "ctor:", "lines",
+                                                                               "cread", "calibrat", "offsets>"))}
         elif not all(x["valid"] for x in states):
             feats = {"history:rejected"}
         return outcome(impl, model, spec, spec_ok=all(x["spec_ok"] for x in states), model_ok=all(x["model_ok"] for x in states),
@@ -1148,6 +1597,7 @@ class C09(Prop):
                 from pewlib.calibration import Calibration
 
                 laser.calibration = {x: Calibration() for x in nm2}
+                st["sops"].append({"op": "set_cal", "cal": [[x, rat(0.0), rat(1.0)] for x in nm2]})
             hfeats.add("history:setdata")
             if [f[0] for f in fields2] != names:
                 hfeats |= {"history:setdata:names", "history:element-set-change"}
@@ -1173,6 +1623,16 @@ class C09(Prop):
                 return "excluded"
             laser.data.pop()
             hfeats |= {"history:pop-layer", "history:layer-count-change"}
+        elif op == "cal":
+            # laser.calibration[name] = Calibration(intercept, gradient): the public dict, one item
+            from pewlib.calibration import Calibration
+
+            if not cal_ok([[stp.get("b"), stp.get("g")]], 1) or not isinstance(stp.get("field"), int):
+                return "excluded"
+            nm = names[stp["field"] % len(names)]
+            laser.calibration[nm] = Calibration(intercept=float(stp["b"]), gradient=float(stp["g"]))
+            st["sops"].append({"op": "cal_item", "name": nm, "intercept": rat(float(stp["b"])), "gradient": rat(float(stp["g"]))})
+            hfeats.add("history:calibration-assigned")
         elif op == "scribble":
             # the caller writes into the arrays earlier reconstructions returned (as get(calibrate=True) does in place):
             # neither the stack nor the configuration changes
@@ -1190,7 +1650,17 @@ class C09(Prop):
             sp, v, t, M2 = float(stp["spotsize"]), float(stp["speed"]), float(stp["scantime"]), int(stp["mag"])
             if not (sp > 0 and v > 0 and t > 0 and M2 >= 1 and sp / (v * t) == float(M2)):
                 return "excluded"
-            laser.config.spotsize, laser.config.speed, laser.config.scantime = sp, v, t
+            only = stp.get("only")
+            if only is not None:
+                # a single attribute assigned; the other two must be what the object holds (else the step means nothing)
+                now3 = case2.get("params_now") or [case2["spotsize"], case2["speed"], case2["scantime"]]
+                if only not in ("spotsize", "speed", "scantime") or any(
+                        float(a) != float(b) for k3, (a, b) in enumerate(zip(now3, [sp, v, t])) if ["spotsize", "speed", "scantime"][k3] != only):
+                    return "excluded"
+                setattr(laser.config, only, {"spotsize": sp, "speed": v, "scantime": t}[only])
+                hfeats.add("history:config-one-attribute:" + only)
+            else:
+                laser.config.spotsize, laser.config.speed, laser.config.scantime = sp, v, t
             case2["ops"] = case2["ops"] + [cfg_op("params", spotsize=sp, speed=v, scantime=t)]
             if M2 != case2["mag"]:
                 hfeats.add("history:magnification-change")
@@ -1372,11 +1842,26 @@ class C09(Prop):
                     for key in ("names", "dtype", "scale", "shapes", "n"):
                         if key in stp:
                             yield {**case, "steps": steps[:k] + [{x: v for x, v in stp.items() if x != key}] + steps[k + 1:]}
-        for key in ("base", "scale", "dtype"):
+        if case.get("probes"):
+            yield {k: v for k, v in case.items() if k != "probes"}
+            if len(case["probes"]) > 1:
+                for k in range(len(case["probes"])):
+                    yield {**case, "probes": case["probes"][:k] + case["probes"][k + 1:]}
+        if case.get("creads"):
+            rds = case["creads"]
+            if len(rds) > 1:
+                for k in range(len(rds)):
+                    yield {**case, "creads": rds[:k] + rds[k + 1:]}
+            if case.get("creads_at", "first") != "first":
+                yield {**case, "creads_at": "first"}
+        elif "cal" in case and not any(stp["op"] == "cal" for stp in case.get("steps", [])):
+            yield {x: v for x, v in case.items() if x not in ("cal", "creads", "creads_at")}
+        for key in ("base", "scale", "dtype", "ctor", "dtypes", "layout", "extra"):
             if key in case:
                 yield {x: v for x, v in case.items() if x != key}
         if case["n"] > 2:
-            yield {**case, "n": case["n"] - 1}
+            yield {**{k: v for k, v in case.items() if k != "extra"}, "n": case["n"] - 1,
+                   **({"extra": case["extra"][:-1]} if case.get("extra") else {})}
         if case["nel"] > 1:
             yield {**case, "nel": 1, "element": 0}
         if len(case["pairs"]) > 1:
